@@ -57,3 +57,15 @@ func (b *Broker) SetGate(f GateFn) {
 	}
 	b.gate.fn.Store(f)
 }
+
+// SubscribersOf asks the broker's topic store directly (no call-outs) how many
+// subscribers it would hand a message on the given topic to.
+func (b *Broker) SubscribersOf(topic string) (int, error) {
+	var subs []interface{}
+	var qoss []byte
+	if b.gate == nil || b.gate.Provider == nil {
+		return 0, nil
+	}
+	err := b.gate.Provider.Subscribers([]byte(topic), 2, &subs, &qoss)
+	return len(subs), err
+}
